@@ -20,7 +20,6 @@
    third-party DAG-CBOR decoder on a payload it rejects is NOT part of the counter. *)
 From Lib Require Import Bytes Varint.
 From Gen Require Gen_Consts.
-From Coq Require Uint63.
 Open Scope N_scope.
 
 (* ------------------------------------------------------------------ *)
@@ -463,23 +462,11 @@ Definition unmarshal_v0 (b : bytes) : res (list proto) := fst (unmarshal_v0_full
 (* ------------------------------------------------------------------ *)
 (* checkers for the generated cases                                    *)
 
-(* Byte strings in the case files are packed seven bytes to a primitive-integer literal
-   (B len [w1; w2; ..], big-endian inside a word, the last word holding the remaining
-   len mod 7 bytes): coqc reads such literals about ten times faster than string
-   literals, which is what bounds the number of cases per run.  Only the case files
-   use this; no theorem depends on primitive integers. *)
-Definition N_of_int (w : Uint63.int) : N := Z.to_N (Uint63.to_Z w).
-Definition nat_of_int (w : Uint63.int) : nat := Z.to_nat (Uint63.to_Z w).
-Fixpoint bytes_le (k : nat) (n : N) : bytes :=
-  match k with O => [] | S k' => N.land n 255 :: bytes_le k' (N.shiftr n 8) end.
-Fixpoint unpack (len : nat) (ws : list Uint63.int) : bytes :=
-  match ws with
-  | [] => []
-  | w :: r => let k := Nat.min len 7 in rev_append (bytes_le k (N_of_int w)) (unpack (len - k) r)
-  end.
-Definition B (len : Uint63.int) (ws : list Uint63.int) : bytes := unpack (nat_of_int len) ws.
-(* all numbers in the case files are primitive-integer literals as well *)
-Definition U (code : Uint63.int) (raw : bytes) : proto := PUnknown (N_of_int code) raw.
+(* Byte strings and numbers in the case files are written as primitive-integer literals
+   (coqc reads those about ten times faster than string or N literals, which is what
+   bounds the number of cases per run).  The few definitions that unpack them (B, U,
+   EncCaseI, DecCaseI) are emitted by the harness at the top of every case file, so that
+   nothing in this development depends on Coq's Uint63 library. *)
 
 Inductive obs (A : Type) := OOk (a : A) | OErr | OPanic.
 Arguments OOk {A} a.
@@ -535,14 +522,6 @@ Definition dec_case_ok (c : dec_case) : bool :=
       && match r with Ok m => bytes_eqb (marshal m) b | _ => true end
     end
   end.
-
-(* the same with primitive-integer literals *)
-Definition EncCaseI (ins : list proto) (m : obs bytes) (d : obs (list proto)) (ids : list Uint63.int)
-           (gets : list (Uint63.int * option Uint63.int)) (valid : bool) : enc_case :=
-  EncCase ins m d (map N_of_int ids)
-          (map (fun g => (N_of_int (fst g), option_map nat_of_int (snd g))) gets) valid.
-Definition DecCaseI (b : bytes) (d : obs (list proto)) (alloc : Uint63.int) : dec_case :=
-  DecCase b d (N_of_int alloc).
 
 Inductive lim_case := LimGsLink (n : N) (ok : bool).
 Definition lim_case_ok (c : lim_case) : bool :=
